@@ -293,9 +293,36 @@ class _G:
             return [["ADDI", 17, 0, 1], ["LW", 10, B, 0], ["ECALL"]]
         if which == "store-load-same-word":
             return [["SW", a, B, 0], ["LW", b, B, 0], ["SB", b, B, 1], ["LH", c, B, 0]]
+        if which == "load-use-into-branch":
+            # a load feeding the very next branch: decode stall first, then (perhaps) the flush
+            return [["LW", a, B, 0], [r.choice(["BEQ", "BNE", "BLT", "BGEU"]), a, 0, p + 3], ["ADDI", b, b, 1], ["ADDI", c, c, 1]]
+        if which == "branch-in-branch-shadow":
+            # a taken branch directly behind a taken branch: the second one is on the wrong path and must not redirect
+            return [taken(p + 3), taken(p + 4), ["ADDI", a, a, 1], ["ADDI", b, b, 1], ["ADDI", c, c, 1]]
+        if which == "jal-in-branch-shadow":
+            return [taken(p + 3), ["JAL", a, p + 4], ["ADDI", a, a, 1], ["ADDI", b, b, 1], ["ADDI", c, c, 1]]
+        if which == "exit-ecall-in-branch-shadow":
+            return [["ADDI", 17, 0, r.choice(EXIT_CODES)], taken(p + 4), ["ECALL"], ["ADDI", a, a, 1], ["ADDI", b, b, 1]]
+        if which == "dependent-pair-behind-ecall":
+            # a print ecall waiting in EX for an older load while a dependent pair queues up behind it
+            return [["LW", 10, B, 0], ["ADDI", 17, 0, 1], ["ECALL"], ["ADDI", a, 10, 1], ["ADD", b, a, a]]
+        if which == "branch-operands-just-written":
+            return [["ADDI", a, 0, 5], ["ADDI", b, 0, 5], [r.choice(["BEQ", "BNE", "BGE"]), a, b, p + 4], ["ADDI", c, c, 1], ["ADDI", c, c, 2]]
+        if which == "sub-word-lanes-one-block":
+            return [["LB", a, B, 0], ["LBU", b, B, 3], ["LH", c, B, 2], ["SB", a, B, 5], ["LW", b, B, 4], ["SH", c, B, 6], ["LHU", a, B, 6]]
+        if which == "jalr-link-equals-base":
+            # rd == rs1: the base must be read before the link is written; lands on the instruction behind the jalr
+            return [["AUIPC", a, 0], ["JALR", a, a, 8], ["ADDI", b, a, 0], ["ADD", c, a, a]]
+        if which == "store-data-and-base-just-written":
+            return [["ADDI", a, B, 4], ["ADDI", b, 0, r.randint(1, 200)], ["SW", b, a, 0], ["LW", c, a, 0], ["ADD", c, c, b]]
+        if which == "load-into-store-data":
+            return [["LW", a, B, 0], ["SW", a, B, 4], ["LW", b, B, 4], ["SB", b, B, 9]]
         raise KeyError(which)
 
     MOTIFS = [
+        "load-use-into-branch", "branch-in-branch-shadow", "jal-in-branch-shadow", "exit-ecall-in-branch-shadow",
+        "dependent-pair-behind-ecall", "branch-operands-just-written", "sub-word-lanes-one-block",
+        "jalr-link-equals-base", "store-data-and-base-just-written", "load-into-store-data",
         "stall-cancelled-by-flush", "jal-link-wrong-path-consumer", "producer-a7-then-print",
         "store-then-print-string", "exit-then-effects", "two-ecalls", "rs1-and-rs2-producers",
         "waw-then-consumer", "x0-writer-reader", "branch-to-pc-plus-4", "jalr-to-pc-plus-4",
@@ -412,4 +439,11 @@ def generate(seed, faults=True, force_shape=None, fault_rate=0.25, long=False):
             g.splice(p, g.motif(which, p))
             prog = g.prog[:120]
             g.plan["motifs"].append({"which": which, "at": p})
+    if g.shape != "independent" and g.r.random() < 0.1:
+        # the program ends in a control transfer (taken to just behind the end, further out, or not taken)
+        n = len(prog)
+        a = next((x for x in g.pool if x != 0), 1)
+        tail = g.r.choice([["BEQ", 0, 0, n + 1], ["BEQ", 0, 0, n + 2], ["BNE", 0, 0, 0], ["JAL", a, n + 1], ["BGEU", a, a, n + 3]])
+        prog = prog + [tail]
+        g.plan["motifs"].append({"which": "control-transfer-last", "at": n})
     return {"prog": prog, "regs": regs, "mem": mem, "cfg": cfg, "plan": g.plan}
